@@ -383,6 +383,19 @@ class SigmaDetection(ParentChainMixin):
         if self_detection_item_types == {
             SigmaDetection
         }:  # if the items are SigmaDetections, they originate from a list and therefore must not be merged.
+            if len(detection_items) > 1 and self.item_linking is ConditionAND:
+                # A list of detections means OR. AND-linked detections (e.g. after transformations
+                # replaced all detection items of a map by detections) can be written as one map
+                # as long as their keys don't collide.
+                merged: dict[str, Any] = dict()
+                for plain in detection_items:
+                    if not isinstance(plain, dict) or any(k in merged for k in plain):
+                        raise sigma_exceptions.SigmaValueError(
+                            "Can't convert detection into plain value because its AND-linked detections can't be expressed as list.",
+                            source=self.source,
+                        )
+                    merged.update(plain)
+                return merged
             return detection_items
         else:  # SigmaDetectionItems must be merged into a dict, where they originally were created from.
             detection_items_types = {  # create set of types for decision what has to be returned
